@@ -23,8 +23,11 @@ compared byte for byte by the code, so distinct strings are distinct naturals; `
 which `MsgLightNodeSaleClaim.ValidateBasic` does not refuse); an address STRING (`AddrStr`) additionally records
 whether it is the upper-case bech32 spelling, because the licence and client stores are keyed by the string
 while accounts are looked up by the decoded bytes; amounts are unbounded `Nat`/`Int` with the
-`sdkmath.Int` 256-bit panic of the sale path made explicit; times are Unix seconds.  The end of the vesting
-period (`time.AddDate(0, months, 0)`) is an INPUT of `activate` (computed by Go), not re-implemented here.
+`sdkmath.Int` 256-bit panic of the sale path made explicit; times are Unix seconds (UTC, as block times are).
+The end of the vesting period is DERIVED from the stored licence: `addMonths now months` re-implements Go's
+`time.Time.AddDate(0, months, 0)` (proleptic Gregorian calendar, month overflow carried into the year, day
+overflow rolling into the next month), so the driver/harness diff compares it with the `EndTime` the real
+code stores.
 Core Lean only.
 -/
 namespace Paloma.LightNode
@@ -117,6 +120,58 @@ def eraseLic : List (AddrStr × Lic) → AddrStr → List (AddrStr × Lic)
 def sumLic (d : Denom) : List (AddrStr × Lic) → Nat
   | [] => 0
   | (_, l) :: rest => (if l.denom = d then l.amount else 0) + sumLic d rest
+
+/-! ### calendar: Go `time.Time.AddDate(0, months, 0)` on UTC Unix seconds
+
+Days are counted from 0000-01-01 of the proleptic Gregorian calendar (year 0 is a leap year), so that no
+subtraction below zero occurs; `epochDays` is the day number of 1970-01-01. -/
+
+def isLeap (y : Nat) : Bool := y % 4 == 0 && (y % 100 != 0 || y % 400 == 0)
+
+/-- number of days in the years `0 … y-1` -/
+def daysBeforeYear (y : Nat) : Nat := 365 * y + (y + 3) / 4 - (y + 99) / 100 + (y + 399) / 400
+
+/-- days before month `m` (1 … 13) of a non-leap year: 0 31 59 90 120 151 181 212 243 273 304 334 365 -/
+def cumDays (m : Nat) : Nat := (367 * m - 362) / 12 - (if m ≤ 2 then 0 else 2)
+
+def daysBeforeMonth (y m : Nat) : Nat := cumDays m + (if 2 < m ∧ isLeap y = true then 1 else 0)
+
+/-- day number of the first day of month `n % 12 + 1` of year `n / 12` (`n` = months since 0000-01);
+this is Go's `Date(year, month, 1, …)` after its normalisation of the month into `[1, 12]` -/
+def monthStart (n : Nat) : Nat := daysBeforeYear (n / 12) + daysBeforeMonth (n / 12) (n % 12 + 1)
+
+/-- the civil year of day number `z`: the estimate `z / 365.2425` is off by at most one -/
+def yearOf (z : Nat) : Nat :=
+  if z < daysBeforeYear (z * 400 / 146097) then z * 400 / 146097 - 1
+  else if daysBeforeYear (z * 400 / 146097 + 1) ≤ z then z * 400 / 146097 + 1
+  else z * 400 / 146097
+
+/-- the civil month (1 … 12) of the `doy`-th day (0-based) of year `y` -/
+def monthOf (y doy : Nat) : Nat :=
+  if doy < daysBeforeMonth y 2 then 1 else if doy < daysBeforeMonth y 3 then 2
+  else if doy < daysBeforeMonth y 4 then 3 else if doy < daysBeforeMonth y 5 then 4
+  else if doy < daysBeforeMonth y 6 then 5 else if doy < daysBeforeMonth y 7 then 6
+  else if doy < daysBeforeMonth y 8 then 7 else if doy < daysBeforeMonth y 9 then 8
+  else if doy < daysBeforeMonth y 10 then 9 else if doy < daysBeforeMonth y 11 then 10
+  else if doy < daysBeforeMonth y 12 then 11 else 12
+
+def epochDays : Nat := 719528
+def daySecs : Nat := 86400
+
+/-- day number of Unix time `t` -/
+def dayNo (t : Nat) : Nat := t / daySecs + epochDays
+/-- `t.Date()`: year, month (1 … 12) and day of the month MINUS ONE of Unix time `t` -/
+def yearAt (t : Nat) : Nat := yearOf (dayNo t)
+def monthAt (t : Nat) : Nat := monthOf (yearAt t) (dayNo t - daysBeforeYear (yearAt t))
+def domAt (t : Nat) : Nat := dayNo t - daysBeforeYear (yearAt t) - daysBeforeMonth (yearAt t) (monthAt t)
+/-- months since 0000-01 of Unix time `t` -/
+def monthIdxAt (t : Nat) : Nat := 12 * yearAt t + (monthAt t - 1)
+
+/-- `time.Unix(t, 0).UTC().AddDate(0, months, 0).Unix()`: `Date(y, m + months, d, hh, mm, ss)` — the month
+is normalised into the year, then the day of the month is ADDED to the first of that month, so the 31st plus
+one month rolls into the month after next -/
+def addMonths (t months : Nat) : Nat :=
+  (monthStart (monthIdxAt t + months) + domAt t - epochDays) * daySecs + t % daySecs
 
 /-! ### vesting (cosmos-sdk `ContinuousVestingAccount`) -/
 
@@ -230,8 +285,9 @@ def sale (s : State) (chain : Chain) (client : Option AddrStr) (grains : Int) (c
         if s1.grants.contains (fg, (client.getD ⟨0, false⟩).addr) then (s, .rejected) else   -- "fee allowance already exists"
         ({ s1 with grants := s1.grants ++ [(fg, (client.getD ⟨0, false⟩).addr)] }, .ok)
 
-/-- `MsgRegisterLightNodeClient`; `stop` is `now.AddDate(0, months, 0)` as computed by Go -/
-def activate (s : State) (signer : Addr) (creator : AddrStr) (stop now : Nat) : State × Res :=
+/-- `MsgRegisterLightNodeClient` at block time `now`; the vesting period ends at
+`now.AddDate(0, license.VestingMonths, 0)` -/
+def activate (s : State) (signer : Addr) (creator : AddrStr) (now : Nat) : State × Res :=
   if authorisedStr s signer creator = false then (s, .rejected) else
   match lookupLic s.lics creator with
   | none => (s, .rejected)                                      -- ErrNoLicense
@@ -239,7 +295,7 @@ def activate (s : State) (signer : Addr) (creator : AddrStr) (stop now : Nat) : 
     if s.acct creator.addr ≠ .base then (s, .rejected) else     -- ErrNoAccount
     if l.amount = 0 then (s, .rejected) else                    -- BaseVestingAccount.Validate
     if s.escrow l.denom < l.amount then (s, .rejected) else     -- module account cannot pay
-    ({ s with acct := updA s.acct creator.addr (.vesting l.amount l.denom now stop),
+    ({ s with acct := updA s.acct creator.addr (.vesting l.amount l.denom now (addMonths now l.months)),
               bal := upd2 s.bal creator.addr l.denom (s.bal creator.addr l.denom + l.amount),
               escrow := upd s.escrow l.denom (s.escrow l.denom - l.amount),
               lics := eraseLic s.lics creator,
@@ -297,7 +353,7 @@ def fund (s : State) (a : Addr) (d : Denom) (amt : Nat) : State × Res :=
 inductive Op where
   | create (signer creator : Addr) (client : Option AddrStr) (amt : Int) (d : Denom) (months now : Nat)
   | sale (chain : Chain) (client : Option AddrStr) (grains : Int) (contract : CStr) (now : Nat)
-  | activate (signer : Addr) (creator : AddrStr) (stop now : Nat)
+  | activate (signer : Addr) (creator : AddrStr) (now : Nat)
   | auth (signer : Addr) (creator : AddrStr)
   | legacy (signer creator : Addr)
   | send (src : Addr) (dst : Option Addr) (d : Denom) (amt : Int) (now : Nat)
@@ -312,7 +368,7 @@ deriving Repr
 def step (s : State) : Op → State × Res
   | .create sg cr cl amt d m now => create s sg cr cl amt d m now
   | .sale ch cl g c now => sale s ch cl g c now
-  | .activate sg cr stop now => activate s sg cr stop now
+  | .activate sg cr now => activate s sg cr now
   | .auth sg cr => auth s sg cr
   | .legacy sg cr => legacy s sg cr
   | .send a b d amt now => send s a b d amt now
@@ -322,6 +378,15 @@ def step (s : State) : Op → State × Res
   | .setFeegranter a => ({ s with feegranter := some a }, .ok)
   | .setFunders l => ({ s with funders := some l }, .ok)
   | .setContracts l => ({ s with contracts := contractTable l }, .ok)
+
+/-- the block time an operation is executed at (`none`: the operation reads no clock and debits nobody) -/
+def Op.time : Op → Option Nat
+  | .create _ _ _ _ _ _ now => some now
+  | .sale _ _ _ _ now => some now
+  | .activate _ _ now => some now
+  | .send _ _ _ _ now => some now
+  | .gift _ _ _ now => some now
+  | _ => none
 
 def run (s : State) : List Op → State
   | [] => s
